@@ -147,11 +147,12 @@ def encodeUtf16Be (s : UStr) : Bytes := beBytes WRITE_BOM_UTF16 ++ unitsBe (stdE
 /-- `encodings::encode_utf8` -/
 def encodeUtf8 (s : UStr) : Bytes := WRITE_BOM_UTF8 ++ stdUtf8 s
 
-def isAsciiStr (s : UStr) : Bool := s.all (· < 128)
+/-- the test of `text_string`: every UTF-8 byte of the text lies in `TEXT_LITERAL_LO..TEXT_LITERAL_HI` -/
+def isLiteralText (s : UStr) : Bool := (enc8s s).all (fun b => TEXT_LITERAL_LO ≤ b && b < TEXT_LITERAL_HI)
 
 /-- `text_string` -/
 def textString (s : UStr) : Obj :=
-  if isAsciiStr s then .str (s.map Nat.toUInt8) .lit else .str (encodeUtf16Be s) .hex
+  if isLiteralText s then .str (stdUtf8 s) .lit else .str (encodeUtf16Be s) .hex
 
 /-- the `chunks(2)` mapping of `decode_text_string`: a trailing single byte `c` becomes `[c, 0]` -/
 def chunkUnits : Bytes → List Nat
@@ -164,12 +165,11 @@ def decodeTextString (o : Obj) : Outcome UStr :=
   match o with
   | .str s _ =>
     if TEXT_BOM_UTF16.isPrefixOf s then
-      match stdFromUtf16 (chunkUnits (s.drop TEXT_BOM_UTF16.length)) with
+      match stdFromUtf16 (chunkUnits (s.drop TEXT_UTF16_SKIP)) with
       | some r => .ok r
       | none => .err "TextStringDecode"
     else if TEXT_BOM_UTF8.isPrefixOf s then
-      -- the whole string, mark included, goes through `String::from_utf8`
-      match stdFromUtf8 s with
+      match stdFromUtf8 (s.drop TEXT_UTF8_SKIP) with
       | some r => .ok r
       | none => .err "TextStringDecode"
     else bytesToString TEXT_DEFAULT_ENCODING s
